@@ -1,9 +1,6 @@
-(* driver.ml -- model driver: reads case lines "<stream> <op> <args...>" on
-   stdin, prints one result line per case. *)
-let streams : (string * (string list -> string)) list =
-  [ ("name", Drv_name.handle) ]
-
-let () =
+(* vmain.ml -- generic main loop of a model driver: reads case lines
+   "<stream> <op> <args...>" on stdin, prints one result line per case. *)
+let run (streams : (string * (string list -> string)) list) : unit =
   let out = Buffer.create 65536 in
   (try
      while true do
